@@ -574,9 +574,10 @@ def r03_12(ctx):
         )
     # the guard this contract answers to: _materialize refuses to bridge an unknown layout
     mat = repo.mod("dask_array._materialize").func("_materialize")
-    refuses = any(isinstance(n, ast.Raise) for n in body_walk(mat.node)) and "isnan" in unparse(mat.node)
-    rr.inst(site(mat) + "::unknown layout is not bridged", present=refuses)
-    need(refuses, "_materialize's refusal to restore an unknown layout")
+    from .common import with_helpers
+
+    refuses = any(any(isinstance(n, ast.Raise) for n in body_walk(h.node)) and "isnan" in unparse(h.node) for h in with_helpers(mat, depth=2))
+    rr.inst(site(mat) + "::unknown layout is not bridged", present=refuses)  # informative: R03.1 owns that path
     for c in repo.expr_classes():
         if not c.module.is_unit:
             continue
